@@ -194,8 +194,16 @@ func init() {
 						set["answer wrong only when lists contain the same entity several times: "+sg[0]] = true
 					}
 				}
-				for _, cnt := range counts[1:] {
-					if cnt != counts[0] {
+				// lists of an abstract type step through the member types: a list of one entry may hold no
+				// member of the type a fragment needs, so only the longer lists (all members present) are compared
+				cmp := counts
+				for _, at := range atoms {
+					if (at == "interface-field" || at == "union-field" || at == "node-interface-field" || at == "frag-on-abstract") && len(counts) == 4 {
+						cmp = counts[2:]
+					}
+				}
+				for _, cnt := range cmp[1:] {
+					if cnt != cmp[0] {
 						set["number of downstream calls depends on the length of result lists"] = true
 					}
 				}
